@@ -20,7 +20,7 @@ RULE = ("cases: a curve/surface/volume (rational or not, 2-D or 3-D) or a contai
 ASSUMPTIONS = ["nvmon.ref exact reference model for the input points; cos/sin of the angle from the math module (tolerance 1e-9*scale)"]
 FLOORS = {'quick': {'mapped-point': 3000, 'weights-unchanged': 150, 'inplace-semantics': 300, 'aggregate': 100},
           'thorough': {'mapped-point': 30000}}
-MANDATORY_TAGS = ['container:shape-listed-twice', 'container:equal-twins', 'unclamped', 'coarse-precision', 'translate', 'rotate', 'scale', 'container', 'single', 'inplace', 'copy', 'rational', 'axis0', 'axis1', 'axis2',
+MANDATORY_TAGS = ['container:pattern', 'partial-evaluate-before', 'container:shape-listed-twice', 'container:equal-twins', 'unclamped', 'coarse-precision', 'translate', 'rotate', 'scale', 'container', 'single', 'inplace', 'copy', 'rational', 'axis0', 'axis1', 'axis2',
                   'dim2', 'pdim3', 'read-before-inplace', 'null-map', 'partially-iterated']
 TECHNIQUE = ("runtime monitoring: exact reference points of the input mapped by the exact affine map vs library evaluation of the "
              "result, plus object-identity / input-digest checks, under a seeded workload incl. containers")
@@ -44,6 +44,12 @@ def gen(rng, tier, shard, nshards):
                 sd_['normalize_kv'] = False
         yield {'kind': 'transform', 'shapes': shapes, 'container': nel > 0, 'op': rng.choice(['translate', 'rotate', 'scale']),
                'inplace': rng.random() < 0.5, 'seed': rng.randrange(1 << 30)}
+        if i % 6 == 2:
+            # a pattern: copies of one shape a step apart (or doubled in size), transformed by exactly that step - afterwards element k
+            # coincides with what element k + 1 was (distinct objects whose data become equal DURING the operation)
+            sd0 = G.rand_shape(rng, pdim, dim=dim, clamped_only=True, maxextra=2, maxdeg=3, pcls='lattice')
+            yield {'kind': 'transform', 'shapes': [sd0], 'container': True, 'op': rng.choice(['translate', 'scale']),
+                   'pattern': rng.randint(3, 5), 'inplace': rng.random() < 0.5, 'seed': rng.randrange(1 << 30)}
 
 
 def check(case, ctx):
@@ -51,6 +57,15 @@ def check(case, ctx):
     rng = random.Random(case['seed'])
     sds = case['shapes']
     pdim, dim = sds[0]['pdim'], len(sds[0]['ctrlpts'][0])
+    forced = None
+    if case.get('pattern'):
+        ctx.tag('container:pattern')
+        if case['op'] == 'translate':
+            forced = [float(rng.choice([-3, -1, 1, 2, 4])) for _ in range(dim)]
+            sds = [dict(sds[0], ctrlpts=[[c + k * v for c, v in zip(p, forced)] for p in sds[0]['ctrlpts']]) for k in range(case['pattern'])]
+        else:
+            forced = 2
+            sds = [dict(sds[0], ctrlpts=[[c * 2 ** k for c in p] for p in sds[0]['ctrlpts']]) for k in range(case['pattern'])]
     elems = [G.build(sd) for sd in sds]
     defs = [G.defn_of(e) for e in elems]
     ctx.tag(case['op'], 'container' if case['container'] else 'single', 'inplace' if case['inplace'] else 'copy',
@@ -63,7 +78,9 @@ def check(case, ctx):
         ctx.tag('coarse-precision')
     if case['container']:
         cls = {1: multi.CurveContainer, 2: multi.SurfaceContainer, 3: multi.VolumeContainer}[pdim]
-        if case['seed'] % 6 == 0:
+        if case.get('pattern'):
+            pass
+        elif case['seed'] % 6 == 0:
             # the same shape listed twice in the container (add() accepts it): every point still moves once
             elems = elems + [elems[0]]
             defs = defs + [defs[0]]
@@ -86,12 +103,16 @@ def check(case, ctx):
         if rng.random() < 0.12:
             vec = [rng.choice([0, 0.0]) for _ in range(dim)]      # the identity map is a translation too
             ctx.tag('null-map')
+        if forced is not None:
+            vec = forced
         maps = [lambda x, vec=vec: [a + F(b) for a, b in zip(x, vec)]]
         args, kw = (vec,), {}
         nontrivial_map = any(vec)
         outscale = sc + max(abs(v) for v in vec)
     elif op == 'scale':
         m = rng.choice([-1.5, 0.5, 2, 3, 1, 1.0, rng.uniform(0.1, 4)])
+        if forced is not None:
+            m = forced
         maps = [lambda x, m=m: [a * F(m) for a in x]]
         args, kw = (m,), {}
         nontrivial_map = m != 1
@@ -120,6 +141,17 @@ def check(case, ctx):
     kw['inplace'] = case['inplace']
     # ---- before ------------------------------------------------------------------------------------------------------------
     before = [G.snapshot(e) for e in elems]
+    if not case['container']:
+        obj.sample_size = {1: 6, 2: 4, 3: 3}[pdim]
+    if rng.random() < 0.3:
+        # the first shape was sampled on a part of its domain only (its cached points do not start at the domain start)
+        ctx.tag('partial-evaluate-before')
+        e0 = elems[0]
+        kwe = {}
+        for nm_, (a_, b_) in zip(['', ] if pdim == 1 else ['_u', '_v', '_w'], G.domains_of(e0)):
+            kwe['start' + nm_] = a_ + rng.uniform(0.2, 0.4) * (b_ - a_)
+            kwe['stop' + nm_] = a_ + rng.uniform(0.6, 0.9) * (b_ - a_)
+        e0.evaluate(**kwe)
     read_before = rng.random() < 0.5
     input_views = None
     kept_w = None
@@ -127,7 +159,6 @@ def check(case, ctx):
         if case['container']:
             input_views = {'evalpts': [list(p) for p in obj.evalpts]}
         else:
-            obj.sample_size = {1: 6, 2: 4, 3: 3}[pdim]
             input_views = {'evalpts': [list(p) for p in obj.evalpts], 'ctrlpts': [list(p) for p in obj.ctrlpts]}
             if obj.rational:
                 kept_w = obj.weights                    # the caller keeps the list it was handed: "weights unchanged" is read off it later
